@@ -49,7 +49,7 @@ RUN_TIMEOUT = 300
 RULE = ("scenario = design kind (stratified low-level meiosis | stratified through a mating protocol | real-PRNG map-based meiosis with 2e5 gametes | "
         "real-PRNG selfing design through a protocol), 1-12 markers on 1-3 chromosomes, crossover probabilities arbitrary (exact 0 and 0.5 included) or "
         "interpolated from a generated genetic map with the Haldane or Kosambi function, optionally after an earlier mapping onto another map (re-mapping history); map-assigned probabilities are judged against values computed here from the map applied last; distinct = (kind, protocol/function, chromosome count, probability source, "
-        "selfing depth); non-trivial = at least one frequency comparison made")
+        "selfing depth, map function, map points, map class, re-mapping, marker order, parent type); non-trivial = at least one frequency comparison made")
 COMPONENTS = {"real": ["mat_meiosis / mat_dh / mat_mate, dense_meiosis / dense_dh / dense_cross", "seven mating protocols", "StandardGeneticMap + HaldaneMapFunction / KosambiMapFunction + interp_xoprob"],
               "stub": ["generator subclass: stratified scripted uniform draws in mode (a); real PCG64/MT19937 in mode (b)"]}
 ASSUMPTIONS = ["parents carry distinct provenance codes on their two copies so a gamete's phase sequence can be read off the progeny",
@@ -480,6 +480,7 @@ def _out(sc, V, log, faults, probes, ncmp, g):
     f.update(g.fired)
     if not sc["kind"].startswith("strat"):
         f["real_prng_design"] = 1
-    trace = "%s|%s|chr%d|%s|self%s" % (sc["kind"], sc.get("fn") or sc.get("prot"), sc["nchr"], sc["xosrc"], sc.get("nself"))
+    trace = "%s|%s|chr%d|%s|self%s|%s|%s|%s|%s|%s|%s" % (sc["kind"], sc.get("fn") or sc.get("prot"), sc["nchr"], sc["xosrc"], sc.get("nself"), sc.get("mapfn"), sc.get("knots"),
+                                                   sc.get("mapcls"), "remap" if sc.get("remap") else "-", "shuf" if sc.get("shuffled") else "-", "inbred" if sc.get("inbred") else "-")
     return {"violations": V, "log": log, "trace": trace, "nontrivial": ncmp > 0, "faults": f, "probes": probes,
             "sim": {"gametes": sc["N"], "frequency_comparisons": ncmp}}
